@@ -221,6 +221,12 @@ func (v *Verifier) propFunctions(prop string) []*ssa.Function {
 		// even if the caller carries no clause of the property itself
 		if (con == nil || !con.Trusted) && v.callsTaggedRequires(f, prop) {
 			out = append(out, f)
+			continue
+		}
+		// C16: every function that iterates over a map owes the map-order frame obligation
+		if prop == "C16" && (con == nil || !con.Trusted) && hasMapRange(f) {
+			out = append(out, f)
+			v.mapOrderOnly[f] = true
 		}
 	}
 	return out
@@ -364,6 +370,9 @@ func cmdCheck(args []string) int {
 	var todo, covers []obRef
 	for _, j := range jobs {
 		for k, ob := range j.vc.Obs {
+			if v.mapOrderOnly[j.f] && ob.Kind != "maporder" {
+				continue // the function joined C16 for its map iteration only
+			}
 			if ob.Kind == "cover" {
 				covers = append(covers, obRef{j, k})
 				continue
